@@ -128,9 +128,13 @@ PROPS = {
     "C18": {
         "modules": ["Resolved.Props.C18"],
         "streams": [{"name": "resolve-universe", "quick": 2400, "thorough": 60000},
-                    {"name": "resolve-faults", "quick": 800, "thorough": 20000}],
+                    {"name": "resolve-faults", "quick": 800, "thorough": 20000},
+                    # the real binary in forwarding mode (command-line glue, real sockets): a mock forwarder
+                    # and a decoy on the recursive upstream port
+                    {"name": "server-fwd", "quick": 300, "thorough": 6000, "shards": 2}],
+        "bins": ["resolved"],
         "trivial_tags": [r":bad-op", r"/x0$"],
-        "assumptions": ["addresses are observed at the mock transport, which replaces the socket layer"],
+        "assumptions": ["addresses are observed at the mock transport, which replaces the socket layer; in the server-fwd stream at real UDP sockets on 127.0.0.1"],
     },
     "C09": {
         "modules": ["Resolved.Props.C09"],
@@ -163,7 +167,10 @@ PROPS = {
             # every shard replays the exhaustive part first (256 zero patterns x 4 value sets x
             # {show, parse(show), parse(alt form)} + boundary tables), then random strings
             {"name": "ip", "quick": 60000, "thorough": 4000000},
+            # htoh / htoz / ztoh [--strict] binaries built from the working tree against the library functions (glue)
+            {"name": "bins-hosts", "quick": 2000, "thorough": 40000},
         ],
+        "bins": ["htoh", "htoz", "ztoh"],
         "trivial_tags": [r":bad-op", r"hosts\.parse:ok/0/$"],
         "assumptions": [
             "std::net::{IpAddr::from_str, Display for Ipv4Addr/Ipv6Addr} are re-implemented in Lean (Model/Hosts.lean, namespace Ip, after library/core/src/net/{parser.rs, ip_addr.rs} of the pinned nightly) and tied to std by the `ip` stream only; print-then-parse is PROVED of that model for every address",
@@ -234,7 +241,9 @@ PROPS = {
      'bins': ['ztoz'],
      'modules': ['Resolved.Props.C13'],
      'stated_not_proved': [],
-     'streams': [{'name': 'ztext-roundtrip', 'quick': 80000, 'thorough': 1500000}],
+     'streams': [{'name': 'ztext-roundtrip', 'quick': 80000, 'thorough': 1500000},
+                 # the ztoz binary built from the working tree against the library functions (glue)
+                 {'name': 'bins-zone', 'quick': 2000, 'thorough': 40000}],
      'trivial_tags': [':bad-op', 'ztext\\.roundtrip:err/', 'ztext\\.api:nonwf']},
     "C17": {'assumptions': ['totality is a property of the Lean model (by construction; fuel never exhausted by theorem); the '
                      'Rust is tied to it by catch_unwind around every Zone::deserialise / serialise call on each stream '
